@@ -420,6 +420,10 @@ def _aggregate(mod, prop, tier, seed, level, kind, results, skipped, nbatches, t
         for x in sorted(set(inconclusive))[:5]:
             print("  " + x[:400])
         rc = 2
+    if inconclusive and rc == 0:
+        # held on what was explored; the cases below were not decided and are not counted as held
+        for x in sorted(set(x[-300:].replace("\n", " | ") for x in inconclusive))[:3]:
+            print("  inconclusive-case: " + x)
     print(
         "%s tier=%s seed=%d evaluations=%d distinct_nontrivial=%d batches=%d/%d skipped=%d inconclusive=%d known=%d unlisted=%d wall=%.1fs rc=%d"
         % (prop, tier, seed, evaluations, len(nontrivial), len(results), nbatches, skipped, len(inconclusive), len(listed), len(unlisted), wall, rc)
